@@ -162,6 +162,32 @@ func (w *world) pickTarget() any {
 	return o.pid
 }
 
+// spell: the requester may write a name as gen.Atom or as gen.ProcessID with an empty Node, an event with an
+// empty Node. The model keeps the canonical form; only the RESULT of the request decides whether a relation exists.
+func (w *world) spell(t any) any {
+	switch t.(type) {
+	case gen.ProcessID:
+		switch w.rng.Intn(10) {
+		case 0, 1, 2:
+			return spelled(t, "atom")
+		case 3, 4:
+			return spelled(t, "emptynode")
+		}
+	case gen.Event:
+		if w.rng.Intn(10) < 3 {
+			return spelled(t, "emptynode")
+		}
+	}
+	return t
+}
+
+func wrote(t, wr any) string {
+	if t == wr {
+		return ""
+	}
+	return fmt.Sprintf(" written as %#v", wr)
+}
+
 type step struct {
 	expected map[int][]note // per live consumer
 	causes   map[any]string // target -> cause class
@@ -368,14 +394,15 @@ func (w *world) opRelate() {
 	t := w.pickTarget()
 	mon := w.rng.Intn(2) == 0
 	op := relOps[b2i(mon)]
-	rr, ok := do(c, cmd{Op: op, Tgt: t})
+	wr := w.spell(t)
+	rr, ok := do(c, cmd{Op: op, Tgt: wr})
 	if !ok {
 		w.r.incon = "watchdog: command did not return"
 		w.abort = true
 		return
 	}
 	w.events++
-	w.logf("p%d %s %s -> %v", c.idx, op, w.tstr(t), rr.Err)
+	w.logf("p%d %s %s%s -> %v", c.idx, op, w.tstr(t), wrote(t, wr), rr.Err)
 	if rr.Err == nil {
 		w.rel[relKey{c.idx, mon, t}] = true
 	}
@@ -403,14 +430,15 @@ func (w *world) opUnrelate() {
 		c, t, mon = w.pickAlive(), w.pickTarget(), w.rng.Intn(2) == 0
 	}
 	op := []string{"unlink", "demonitor"}[b2i(mon)]
-	rr, ok := do(c, cmd{Op: op, Tgt: t})
+	wr := w.spell(t)
+	rr, ok := do(c, cmd{Op: op, Tgt: wr})
 	if !ok {
 		w.r.incon = "watchdog: command did not return"
 		w.abort = true
 		return
 	}
 	w.events++
-	w.logf("p%d %s %s -> %v", c.idx, op, w.tstr(t), rr.Err)
+	w.logf("p%d %s %s%s -> %v", c.idx, op, w.tstr(t), wrote(t, wr), rr.Err)
 	if rr.Err == nil {
 		delete(w.rel, relKey{c.idx, mon, t})
 	}
